@@ -244,6 +244,14 @@ def run_generated(prim, inv_b, order, close_at, lag=0, kind="pv"):
         comps = {Component(1, ComponentCategory.GRID), Component(2, ComponentCategory.METER), Component(3, ComponentCategory.METER),
                  Component(4, ComponentCategory.CHP), Component(5, ComponentCategory.CHP)}
         gen_cls = ProducerPowerFormula
+    if kind == "grid-ev":
+        # grid(1) - EV meter(3) - {EV chargers 4, 5}: grid power is `#3` with the fallback `#4 + #5`
+        from frequenz.sdk.timeseries.formula_engine._formula_generators import GridPowerFormula
+
+        comps = {Component(1, ComponentCategory.GRID), Component(3, ComponentCategory.METER),
+                 Component(4, ComponentCategory.EV_CHARGER), Component(5, ComponentCategory.EV_CHARGER)}
+        conns = {Connection(1, 3), Connection(3, 4), Connection(3, 5)}
+        gen_cls = GridPowerFormula
     L = len(prim)
     out = []
     with virtual_loop() as loop, fakes.fake_microgrid(comps, conns):
@@ -348,7 +356,8 @@ def gen_shard(args) -> Acc:
         for inv_b in ((["v"] * L), (["v", None] * L)[:L]):
             for order in ("pf", "fp"):
                 for close_at, lag, kind in ([(None, 0, "pv")] + [(c, 0, "pv") for c in range(1, L)] + [(None, 1, "pv"), (None, 2, "pv")]
-                                            + [(None, 0, "grid-reactive"), (2, 0, "grid-reactive"), (None, 0, "producer-chp")]):
+                                            + [(None, 0, "grid-reactive"), (2, 0, "grid-reactive"), (None, 0, "producer-chp"),
+                                               (None, 0, "grid-ev"), (2, 0, "grid-ev")]):
                     out, text, stalled = run_generated(list(prim), inv_b, order, close_at, lag, kind)
                     viol = oracle_generated(list(prim), inv_b, order, close_at, out, lag)
                     if stalled:
